@@ -1068,7 +1068,7 @@ int KSI_AggregationHashChain_calculateShape(const KSI_AggregationHashChain *chn,
 	tmp = 1;
 
 	i = KSI_HashChainLinkList_length(chn->chain);
-	if (i > (sizeof(KSI_uint64_t) << 3) + 1) {
+	if (i >= (sizeof(KSI_uint64_t) << 3)) {
 		res = KSI_INVALID_STATE;
 		goto cleanup;
 	}
